@@ -85,6 +85,11 @@ def lit(rng):
     if c < 0.8:
         return "%d.%s" % (rng.randint(0, 99), rng.choice(["5", "25", "75", "125", "0625"]))
     if c < 0.87:
+        if rng.random() < 0.3:
+            # grapheme clusters of several code points (skin-tone modifier, combining accent, flag, variation selector,
+            # ZWJ sequence): the text of a fenced block is rebuilt grapheme by grapheme before it is parsed as code
+            return '"%s"' % rng.choice(["ok \U0001F44D\U0001F3FD!", "cafe\u0301", "\U0001F1E9\U0001F1EA flag", "\u270C\uFE0F sign",
+                                        "\U0001F468\u200D\U0001F469\u200D\U0001F467 family", "a\u0308b c\u0327"])
         return '"%s"' % " ".join(rng.choice(WORDS) for _ in range(rng.randint(1, 3)))
     if c < 0.93:
         return rng.choice(["true", "false"])
